@@ -1,6 +1,7 @@
 (* GErrProofs.v — CloneBase composes lawfully along any chain (lemmas behind Props/C15.v). *)
 From Coq Require Import NArith List Bool Lia PeanoNat.
-From GT Require Import Base.GErrStr GErrModel GErrSpec.
+From GT Require Import Base.GErrStr.
+From GT Require Import GErrModel GErrSpec.
 Import ListNotations.
 
 (* ---------------------------------------------------------------- strings *)
@@ -384,6 +385,19 @@ Section Laws.
   Qed.
 End Laws.
 
+Lemma law_all : forall xw st v ch st' r g g',
+    derive xw st v ch = Some (st', r) -> lookup st v = Some g -> lookup st' r = Some g' ->
+    forallb no_shortcut ch = true ->
+    stack_has_source (view_of g) = true ->
+    forallb derived_ok (map (eff_of (wt_of xw v)) ch) = true ->
+    (forall i, i < length st -> nth_error st' i = nth_error st i)
+    /\ view_of g' = spec_view (view_of g) (map (eff_of (wt_of xw v)) ch).
+Proof.
+  intros xw st v ch st' r g g' D L L' NS Hs Hd. split.
+  - intros i Hi. exact (derive_unchanged _ _ _ _ _ _ _ D Hi).
+  - exact (law_view _ _ _ _ _ _ _ _ D L L' NS Hs Hd).
+Qed.
+
 (* ---------------------------------------------------------------- corollaries of the closed forms *)
 Lemma first_nonempty_app_stable a b :
   nonempty (first_nonempty a) = true -> first_nonempty (a ++ b) = first_nonempty a.
@@ -406,8 +420,7 @@ Lemma first_nonempty_in l x : In x l -> nonempty x = true -> nonempty (first_non
 Proof.
   induction l as [|y l IH]; simpl; [contradiction|].
   intros [->|H] Hx.
-  - unfold nonempty in Hx. destruct (is_empty x); [discriminate|]. unfold nonempty.
-    destruct x; [discriminate|reflexivity].
+  - destruct x; [discriminate|]. reflexivity.
   - destruct (is_empty y) eqn:E; [auto|]. unfold nonempty. rewrite E. reflexivity.
 Qed.
 
